@@ -129,7 +129,8 @@ def execute(be, gv, st, form_alt):
     out["scan"] = sc
     be.reopen()
     out["views"]["reopened"] = be.api()
-    if gv is not None:
+    if gv is not None and (got.startswith("exc:") or held == ("packed-refs",)):
+        # (C git's view of completed calls is compared on every transition of the RefMapFiles graph already)
         out["git"] = gv.view(sc, be.fingerprint(sc))
     return out
 
@@ -159,8 +160,9 @@ def judge(be, st_refused, st_done, ex):
         out.append((clause, f"{base} result want={want_res} got={ex['got']}",
                     f"{METHOD[op]} under a held {hk} returned {ex['got']}; the contract says {want_res}"))
     ids = be.objs.ids
+    order = ([n] if n in NAMES else []) + [x for x in NAMES if x != n]       # the call's own name first
     for vname, api in ex["views"].items():
-        for x in NAMES:
+        for x in order:
             g = api["get"][x]
             if g != get[x]:
                 pp = packed[x][1] if packed[x] != ABSENT else None
@@ -216,7 +218,7 @@ def worker(args):
                 res["sample"] = {"kind": "held-lock", "call": key[:5], "held": key[5], "outcome": ex["got"]}
         if not fails:
             res["validated"] += 1
-        for clause, case, what in fails:
+        for clause, case, what in fails[:1]:      # one signature per case: the first (most specific) failed clause
             sig = f"{be.site}|{clause}|{case}"
             if sig in seen:
                 continue
